@@ -68,7 +68,19 @@ IsOpen(c, m, ts) == IF c.mk[m].h THEN ts \in HourData(c) ELSE TRUE
 -----------------------------------------------------------------------------
 (* Events *)
 Ev(e) == [e |-> e, m |-> 0, ts |-> None, f |-> FALSE, k |-> "", a |-> <<>>, r |-> <<>>, n |-> None, px |-> None]
-Pack(ev) == <<ev.e, ev.m, ev.ts, ev.f, ev.k, ev.a, ev.r, ev.n, ev.px>>
+(* compact form kept in the model checker's history variable (the event name first; for upd/op the market second) *)
+Pack(ev) ==
+  CASE ev.e \in {"status", "when", "out"} -> <<ev.e, ev.m, ev.ts, ev.f>>
+    [] ev.e \in {"do", "mopen"}         -> <<ev.e, ev.m, ev.ts>>
+    [] ev.e \in {"bb", "ob", "ab"}      -> <<ev.e, ev.ts, ev.n>>
+    [] ev.e = "op"                      -> <<ev.e, ev.m, ev.k, ev.f, ev.a>>
+    [] ev.e = "upd"                     -> <<ev.e, ev.m, ev.a>>
+    [] ev.e = "rec"                     -> <<ev.e, ev.ts, ev.px>>
+    [] ev.e = "ntf"                     -> <<ev.e, ev.m, ev.ts, ev.n>>
+    [] ev.e = "fin"                     -> <<ev.e, ev.n>>
+    [] ev.e \in {"rowlist", "rows"}     -> <<ev.e, ev.r>>
+    [] ev.e = "end"                     -> <<ev.e, ev.a>>
+    [] OTHER                            -> <<ev.e>>
 
 HookPhases == {"Initialize", "BeforeBar", "Trigger", "MarketOpen", "OnBar", "AfterBar"}
 OpKinds    == {"w", "n", "wx", "nx"}   \* write / non-write operation, x = with an argument the market rejects
@@ -185,7 +197,7 @@ WhenStep(c, st, ev) ==
 DoStep(c, st, ev) ==
   IF st.phase # "Trigger" THEN Fail(st, "PhaseOrder: trigger action in phase " \o st.phase)
   ELSE IF ev.ts # TimeOf(c, st.bar) THEN Fail(st, "BarsInOrder: trigger action sees another timestamp")
-  ELSE IF st.fired # ev.m \/ st.inDo THEN Fail(st, "info/Trigger: do() without when() = TRUE")
+  ELSE IF st.fired = 0 \/ st.fired # ev.m \/ st.inDo THEN Fail(st, "info/Trigger: do() without when() = TRUE")
   ELSE OK([st EXCEPT !.inDo = TRUE])
 
 OutStep(c, st, ev) ==
@@ -400,9 +412,9 @@ Inv_C05_HookOrder(c, h) ==
 (* every record is stamped with the bar it was produced in; ids are positions *)
 Inv_C05_Stamp(c, st) ==
   /\ \A j \in DOMAIN st.log : st.log[j].stamp = TimeOf(c, st.log[j].bar) /\ st.log[j].id = j
-(* an accepted operation has exactly one record, a rejected one none (h = packed history, f = h[p][4], a = h[p][6]) *)
+(* an accepted operation has exactly one record, a rejected one none (h = packed history, op = <<"op", m, k, f, a>>) *)
 Inv_C05_OneRecordPerOp(h) ==
-  h # <<>> => LET p == Len(h) IN h[p][1] = "op" => Len(h[p][6]) = (IF h[p][4] THEN 1 ELSE 0)
+  h # <<>> => LET p == Len(h) IN h[p][1] = "op" => Len(h[p][5]) = (IF h[p][4] THEN 1 ELSE 0)
 
 (* delivered exactly once, in the Notify phase of its own bar, after the row of that bar was recorded *)
 Inv_C05_NotifyOnce(c, st) ==
